@@ -8,6 +8,7 @@ import (
 	"sort"
 	"strings"
 	"sync"
+	"sync/atomic"
 	"time"
 )
 
@@ -22,10 +23,13 @@ type callRec struct {
 	spec int
 	run  int // index among the concurrent calls (-1 for solo)
 
-	mu     sync.Mutex
-	events []event
-	viol   []string
-	states []any // state objects the generator produced for this call (kept alive => no address reuse)
+	mu       sync.Mutex
+	events   []event
+	viol     []string
+	states   []any // state objects the generator produced for this call (kept alive => no address reuse)
+	returned int32 // 1 once the call has returned to the harness (atomic); events logged later are not the call's
+	frozen   int   // number of events at that moment
+	parked   int32 // workflow kind: parallel nodes of THIS call that have logged everything and are about to sleep (atomic)
 }
 
 type event struct {
@@ -95,11 +99,25 @@ func see(ctx context.Context, where, text string) {
 // functions compute lengths; foreign tags stay visible).
 func (rc *callRec) canon(s string) string { return strings.ReplaceAll(s, rc.tag, selfTag) }
 
+// freeze: the call has returned. What tasks it abandoned (a workflow returns on the first failing
+// node while parallel nodes are still executing) log afterwards — their end callbacks — is not
+// part of what the call did as far as its caller can tell, and arrives at no particular time.
+func (rc *callRec) freeze() {
+	rc.mu.Lock()
+	rc.frozen = len(rc.events)
+	rc.mu.Unlock()
+	atomic.StoreInt32(&rc.returned, 1)
+}
+
 func (rc *callRec) eventNames() []string {
 	rc.mu.Lock()
 	defer rc.mu.Unlock()
-	out := make([]string, len(rc.events))
-	for i, e := range rc.events {
+	n := len(rc.events)
+	if atomic.LoadInt32(&rc.returned) != 0 && rc.frozen < n {
+		n = rc.frozen
+	}
+	out := make([]string, n)
+	for i, e := range rc.events[:n] {
 		out[i] = e.name
 	}
 	sort.Strings(out)
